@@ -34,6 +34,7 @@ import Proofs.CommuteAroundDocs
 import Proofs.CommuteAroundMarkup
 import Proofs.CommuteAroundSuccess
 import Proofs.CommuteAroundAgain
+import Props.C01
 namespace PM.C17
 open PM
 
@@ -1243,15 +1244,13 @@ FULL STATEMENTS (not proved):
     commute_succeeds_around_nodeStep : the same for `pos + 1 < f ∨ (gf < pos ∧ pos + 1 < gt) ∨ t < pos`, without `hg`
       for attr / remove-node-mark steps (they change no mark set a parent could refuse; add-node-mark needs that the
       parent of the addressed node keeps its type, finding C17-parent-retyped);
-    commute_succeeds_around_removeMark, commute_succeeds_around_addMark_partial (under `ParentStable`).
+    commute_succeeds_around_removeMark, commute_succeeds_around_addMark_partial (under `ParentStable`): proved for
+      ranges strictly outside `[from, to]` under `commuteGuard`, validity and `TextLoop`, next section.
 Proved: the node step strictly before `from` (its token may be an ancestor's open token) or strictly after `to`, under `commuteGuard`
 (not forced for attr steps: a guard-free proof needs "a replace does not read the markup of tokens outside its range
 except through `validContent` of rebuilt parents", which does not exist yet).  Missing for the rest:
 * inside the gap: as for `commute_succeeds_around_gap` below (the filled slice differs in one token's markup);
-* mark steps: their slice may be open, and `da.slice f2' t2'` has to be shown to carry the same markup on its open
-  spine as `d.slice f2 t2` (`slice_again` covers closed slices only); alternatively `addMark_applies` /
-  `removeMark_applies` on `da` (valid document, `TextLoop`) for the mark step and `replaceKids_map`-style re-validation
-  for the replace-around step on `db`. -/
+* mark steps: next section (outside `[from, to]`); inside the gap open. -/
 
 /-- **a node-mark / attr step on a token strictly before a replace-around step's range, one of the two inside a node
     the other one does not touch**: neither rebased step is dropped (both unchanged), both orders apply, and they
@@ -1427,6 +1426,243 @@ theorem commute_succeeds_around_nodeStep_partial (S : Schema) (d da db : Node) (
       hN hn hsn hs h ha hb hg
     exact ⟨N, dab, h1, h2, h3, h4⟩
   · exact commute_succeeds_around_nodeStep_after_partial S d da db f t gf gt ins sl st pos N hN hn hsn hs h ha hb hg
+
+/-! ### both rebased orders apply — replace-around step vs. mark step outside `[from, to]`
+
+A mark step that applies is the plain replace of its range by the re-marked slice (`markStep_as_replace`), so under
+`commuteGuard` (with the cut slice `old = d.slice f2 t2` giving the mark step's depth of descent)
+`commute_succeeds_replace` makes the replace-around step's filled replace apply to `db`, and `around_again_*` turns it
+back into the replace-around step.  The rebased mark step applies to `da` because `da` is a valid normal-form
+document (`C01.apply_valid`) and its ends stay pair-aligned (`addMark_applies` / `removeMark_applies`, `TextLoop`); the
+two results are equal by the convergence theorems above.  `_partial`: `commuteGuard` is not forced for mark steps
+(a guard-free proof needs a target-based success criterion for `replaceKids` — `replaceKids_undoG` /
+`replaceKids_merged` are of that kind — plus `RightRel` / `LeftRel` between `db` and the expected result, i.e. how a
+mark step changes the tree right of a position; not available), and the inside-the-gap position is open. -/
+
+/-- **replace-around step vs. mark step strictly before its range: both rebased steps apply** (the documents are
+    compared by the convergence theorems) -/
+theorem around_mark_core_before (S : Schema) (hts : TextLoop S) (d da db : Node) (f t gf gt ins : Nat)
+    (sl : Slice) (st : Bool) (f2 t2 : Nat) (mk : Mark) (M : Step)
+    (hM : M = .addMark f2 t2 mk ∨ M = .removeMark f2 t2 mk)
+    (hv : C01.Valid S d) (hpv : C01.PayloadValid S d (.replaceAround f t gf gt sl ins st))
+    (hn : fnorm d.kids = true) (hsn : fnorm sl.content = true)
+    (hs : AroundShape f t gf gt sl ins) (hsep : t2 < f)
+    (ha : S.apply (.replaceAround f t gf gt sl ins st) d = .ok da) (hb : S.apply M d = .ok db)
+    (old : Slice) (hold : d.slice f2 t2 = .ok old) (hg : commuteGuard d.kids f2 t2 old f t sl = true) :
+    ∃ dab dba, M.map (Step.replaceAround f t gf gt sl ins st).getMap = some M ∧
+      (Step.replaceAround f t gf gt sl ins st).map M.getMap = some (.replaceAround f t gf gt sl ins st) ∧
+      S.apply M da = .ok dab ∧ S.apply (.replaceAround f t gf gt sl ins st) db = .ok dba ∧
+      fnorm dab.kids = true ∧ fnorm dba.kids = true := by
+  obtain ⟨hsp, hto⟩ := markStep_span f2 t2 mk M hM
+  obtain ⟨old', slM, hold', hos, hslMn, hb2⟩ := markStep_as_replace S d db f2 t2 mk M hM hn hb
+  rw [hold] at hold'; cases hold'
+  have F := markStep_facts S d db f2 t2 mk M hM hb
+  obtain ⟨hle, ht2⟩ := F.range
+  obtain ⟨gap, I, hgap, ho1, ho2, hinst, ha2, hio, hin, hisz, hl⟩ :=
+    around_as_replace S d da f t gf gt ins sl st hn hsn hs ha
+  have hgo := hs.2.2
+  have hg' : commuteGuard d.kids f2 t2 slM f t I = true := by
+    rw [commuteGuard_openStart _ _ _ _ _ old sl slM I hos hio]; exact hg
+  obtain ⟨a', b', dab0, hb', ha', hab, hba⟩ := commute_succeeds_replace S d db da f2 t2 f t slM I
+    false false hn hslMn hin hsep hb2 ha2 hg'
+  obtain ⟨hdb, _, hlp, hlenM⟩ := apply_replace_splice S d db f2 t2 slM false hb2
+  obtain ⟨hda, _, _, hleni⟩ := apply_replace_splice S d da f t I false ha2
+  have hnb := F.norm hn
+  have hna := apply_replace_norm S d da f t I false hn hin ha2
+  have hlenS : slM.toks.length = t2 - f2 := by
+    have h1 := F.size
+    rw [← ftoks_length, ← ftoks_length, hdb, splice_length _ _ _ _ hle hlp] at h1
+    omega
+  obtain ⟨r1, r2⟩ := rebase_separated_after f2 t2 f t slM I false false hle (by omega) hsep (by omega)
+  rw [r1] at hb'
+  simp only [Option.some.injEq] at hb'
+  subst hb'
+  -- the replace-around step on `db`
+  have hAdb : S.apply (.replaceAround f t gf gt sl ins st) db = .ok dab0 := by
+    have hfr := apply_replace_fromReplace S db dab0 _ _ I false hab
+    have n1 : ∀ p : Nat, t2 < p → ((p : Int) + slM.size - ((t2 : Int) - f2)).toNat = p := by
+      intro p hp; omega
+    rw [n1 f hsep, n1 t (by omega)] at hfr
+    have := around_again_shifted S d db da dab0 f t gf gt ins f2 t2 sl slM.toks st gap I hn hnb hgo hsep
+      hle hl hdb ha hgap ho1 ho2 hinst
+      (by rw [hlenS, show f2 + (t2 - f2) + (f - t2) = f by omega, show f2 + (t2 - f2) + (t - t2) = t by omega]
+          exact hfr)
+    rw [hlenS] at this
+    rwa [show f2 + (t2 - f2) + (f - t2) = f by omega, show f2 + (t2 - f2) + (t - t2) = t by omega,
+      show f2 + (t2 - f2) + (gf - t2) = gf by omega, show f2 + (t2 - f2) + (gt - t2) = gt by omega] at this
+  -- the mark step on `da`
+  obtain ⟨ty, a, m, K, K', rfl, rfl, hrK⟩ := fromReplace_parts S d db f2 t2 slM
+    (apply_replace_fromReplace S _ _ _ _ _ false hb2)
+  obtain ⟨al1, al2⟩ := replaceKids_aligned S ty K f2 t2 slM K' hrK
+  obtain ⟨ty', a', m', K0, Ka, e0, rfl, hrA⟩ := fromReplace_parts S _ da f t I
+    (apply_replace_fromReplace S _ _ _ _ _ false ha2)
+  cases e0
+  simp only [Node.kids] at hn hna hda hl al1 al2 ht2 ⊢
+  have hvda : S.checkNode (.elem ty a m Ka) = true := C01.apply_valid S _ _ _ hv hpv ha
+  have hlenda : (ftoks Ka).length = f + I.toks.length + ((ftoks K).length - t) := by
+    rw [hda]; exact splice_length _ _ _ _ (by omega) hl
+  obtain ⟨dab, hMda⟩ := markStep_applies S hts (.elem ty a m Ka) f2 t2 mk id M hM hvda hna ⟨_, _, _, _, rfl⟩
+    hle (by simp only [id, Node.kids]; rw [← ftoks_length, hlenda]; omega)
+    (aligned_before_splice K Ka _ f t f2 hn hna hda (by omega) (by omega) al1)
+    (aligned_before_splice K Ka _ f t t2 hn hna hda (by omega) hsep al2)
+  rw [Step.mapPos_id _ id (fun _ => rfl)] at hMda
+  have Fda := markStep_facts S _ dab f2 t2 mk M hM hMda
+  refine ⟨dab, dab0, ?_, ?_, hMda, hAdb, Fda.norm hna, apply_replace_norm S _ dab0 _ _ I false hnb hin hab⟩
+  · exact (rebase_markup_not_dropped_around M f2 t2 hsp hle f t gf gt sl ins st hgo).1 hsep
+  · rw [getMap_of_touch M f2 t2 hto]
+    exact replaceAround_map_empty f t gf gt sl ins st ⟨hgo.1, hgo.2.2⟩
+
+/-- **… strictly after its range**: the mark step moves by the size change -/
+theorem around_mark_core_after (S : Schema) (hts : TextLoop S) (d da db : Node) (f t gf gt ins : Nat)
+    (sl : Slice) (st : Bool) (f2 t2 : Nat) (mk : Mark) (M : Step)
+    (hM : M = .addMark f2 t2 mk ∨ M = .removeMark f2 t2 mk)
+    (hv : C01.Valid S d) (hpv : C01.PayloadValid S d (.replaceAround f t gf gt sl ins st))
+    (hn : fnorm d.kids = true) (hsn : fnorm sl.content = true)
+    (hs : AroundShape f t gf gt sl ins) (hsep : t < f2)
+    (ha : S.apply (.replaceAround f t gf gt sl ins st) d = .ok da) (hb : S.apply M d = .ok db)
+    (old : Slice) (hold : d.slice f2 t2 = .ok old) (hg : commuteGuard d.kids f t sl f2 t2 old = true) :
+    ∃ dab dba, M.map (Step.replaceAround f t gf gt sl ins st).getMap =
+        some (M.mapPos (fun p => ((p : Int) + ((ins : Int) - ((gf : Int) - f)) +
+          (sl.size - ins - ((t : Int) - gt))).toNat)) ∧
+      (Step.replaceAround f t gf gt sl ins st).map M.getMap = some (.replaceAround f t gf gt sl ins st) ∧
+      S.apply (M.mapPos (fun p => ((p : Int) + ((ins : Int) - ((gf : Int) - f)) +
+          (sl.size - ins - ((t : Int) - gt))).toNat)) da = .ok dab ∧
+      S.apply (.replaceAround f t gf gt sl ins st) db = .ok dba ∧
+      fnorm dab.kids = true ∧ fnorm dba.kids = true := by
+  obtain ⟨hsp, hto⟩ := markStep_span f2 t2 mk M hM
+  obtain ⟨old', slM, hold', hos, hslMn, hb2⟩ := markStep_as_replace S d db f2 t2 mk M hM hn hb
+  rw [hold] at hold'; cases hold'
+  have F := markStep_facts S d db f2 t2 mk M hM hb
+  obtain ⟨hle, ht2⟩ := F.range
+  obtain ⟨gap, I, hgap, ho1, ho2, hinst, ha2, hio, hin, hisz, hl⟩ :=
+    around_as_replace S d da f t gf gt ins sl st hn hsn hs ha
+  have hgo := hs.2.2
+  have hg' : commuteGuard d.kids f t I f2 t2 slM = true := by
+    rw [commuteGuard_openStart _ _ _ _ _ sl old I slM hio hos]; exact hg
+  obtain ⟨a', b', dab0, hb', ha', hab, hba⟩ := commute_succeeds_replace S d da db f t f2 t2 I slM
+    false false hn hin hslMn hsep ha2 hb2 hg'
+  obtain ⟨hdb, _, hlp, hlenM⟩ := apply_replace_splice S d db f2 t2 slM false hb2
+  obtain ⟨hda, _, _, hleni⟩ := apply_replace_splice S d da f t I false ha2
+  have hnb := F.norm hn
+  have hna := apply_replace_norm S d da f t I false hn hin ha2
+  obtain ⟨r1, r2⟩ := rebase_separated_after f t f2 t2 I slM false false (by omega) hle hsep (by omega)
+  rw [r2] at ha'
+  simp only [Option.some.injEq] at ha'
+  subst ha'
+  have hAdb : S.apply (.replaceAround f t gf gt sl ins st) db = .ok dab0 := by
+    have hfr := apply_replace_fromReplace S db dab0 _ _ I false hba
+    exact around_again_same S d db da dab0 f t gf gt ins f2 t2 sl slM.toks st gap I hn hnb hgo hsep
+      hle hlp hdb ha hgap ho1 ho2 hinst hfr
+  have hmap := (rebase_markup_not_dropped_around M f2 t2 hsp hle f t gf gt sl ins st hgo).2.2 hsep
+  have n1 : ∀ p : Nat, t < p →
+      ((p : Int) + ((ins : Int) - ((gf : Int) - f)) + (sl.size - ins - ((t : Int) - gt))).toNat =
+        f + I.toks.length + (p - t) := by
+    intro p hp; omega
+  generalize hgdef : (fun p : Nat => ((p : Int) + ((ins : Int) - ((gf : Int) - f)) +
+    (sl.size - ins - ((t : Int) - gt))).toNat) = g at hmap ⊢
+  have hg1 : g f2 = f + I.toks.length + (f2 - t) := by rw [← hgdef]; exact n1 f2 hsep
+  have hg2 : g t2 = f + I.toks.length + (t2 - t) := by rw [← hgdef]; exact n1 t2 (by omega)
+  obtain ⟨ty, a, m, K, K', rfl, rfl, hrK⟩ := fromReplace_parts S d db f2 t2 slM
+    (apply_replace_fromReplace S _ _ _ _ _ false hb2)
+  obtain ⟨al1, al2⟩ := replaceKids_aligned S ty K f2 t2 slM K' hrK
+  obtain ⟨ty', a', m', K0, Ka, e0, rfl, hrA⟩ := fromReplace_parts S _ da f t I
+    (apply_replace_fromReplace S _ _ _ _ _ false ha2)
+  cases e0
+  simp only [Node.kids] at hn hna hda hl al1 al2 ht2 hlp ⊢
+  have hvda : S.checkNode (.elem ty a m Ka) = true := C01.apply_valid S _ _ _ hv hpv ha
+  have hlenda : (ftoks Ka).length = f + I.toks.length + ((ftoks K).length - t) := by
+    rw [hda]; exact splice_length _ _ _ _ (by omega) hl
+  obtain ⟨dab, hMda⟩ := markStep_applies S hts (.elem ty a m Ka) f2 t2 mk g M hM hvda hna ⟨_, _, _, _, rfl⟩
+    (by rw [hg1, hg2]; omega)
+    (by simp only [Node.kids]; rw [hg2, ← ftoks_length, hlenda]; omega)
+    (by rw [hg1]; exact aligned_after_splice K Ka _ f t f2 hn hna hda (by omega) hl hsep al1)
+    (by rw [hg2]; exact aligned_after_splice K Ka _ f t t2 hn hna hda (by omega) hl (by omega) al2)
+  have hM' : M.mapPos g = .addMark (g f2) (g t2) mk ∨ M.mapPos g = .removeMark (g f2) (g t2) mk := by
+    rcases hM with rfl | rfl
+    · exact .inl rfl
+    · exact .inr rfl
+  have Fda := markStep_facts S _ dab (g f2) (g t2) mk (M.mapPos g) hM' hMda
+  refine ⟨dab, dab0, hmap, ?_, hMda, hAdb, Fda.norm hna, apply_replace_norm S _ dab0 _ _ I false hnb hin hba⟩
+  rw [getMap_of_touch M f2 t2 hto]
+  exact replaceAround_map_empty f t gf gt sl ins st ⟨hgo.1, hgo.2.2⟩
+
+/-- **a replace-around step and a mark step on a range strictly outside `[from, to]`, one of the two inside a node
+    the other one does not touch** (valid normal-form document, valid payload, text children may repeat; for an
+    add-mark step after the range the marked inline atoms keep the type of their enclosing node, `ParentStable`):
+    neither rebased step is dropped, both orders apply, and they give the same document -/
+theorem commute_succeeds_around_mark_partial (S : Schema) (hts : TextLoop S) (d da db : Node)
+    (f t gf gt ins : Nat) (sl : Slice) (st : Bool) (f2 t2 : Nat) (mk : Mark) (M : Step)
+    (hM : M = .addMark f2 t2 mk ∨ M = .removeMark f2 t2 mk)
+    (hv : C01.Valid S d) (hpv : C01.PayloadValid S d (.replaceAround f t gf gt sl ins st))
+    (hn : fnorm d.kids = true) (hsn : fnorm sl.content = true)
+    (hs : AroundShape f t gf gt sl ins)
+    (ha : S.apply (.replaceAround f t gf gt sl ins st) d = .ok da) (hb : S.apply M d = .ok db)
+    (old : Slice) (hold : d.slice f2 t2 = .ok old)
+    (hg : (t2 < f ∧ commuteGuard d.kids f2 t2 old f t sl = true) ∨
+      (t < f2 ∧ commuteGuard d.kids f t sl f2 t2 old = true))
+    (hstable : M = .addMark f2 t2 mk → t < f2 → ParentStable S d da f2 t2
+      ((f2 : Int) + ((ins : Int) - ((gf : Int) - f)) + (sl.size - ins - ((t : Int) - gt))).toNat) :
+    ∃ M' dab, M.map (Step.replaceAround f t gf gt sl ins st).getMap = some M' ∧
+      (Step.replaceAround f t gf gt sl ins st).map M.getMap = some (.replaceAround f t gf gt sl ins st) ∧
+      S.apply M' da = .ok dab ∧ S.apply (.replaceAround f t gf gt sl ins st) db = .ok dab := by
+  have hle : f2 ≤ t2 := (markStep_facts S d db f2 t2 mk M hM hb).range.1
+  rcases hg with ⟨hsep, hg⟩ | ⟨hsep, hg⟩
+  · obtain ⟨dab, dba, h1, h2, h3, h4, n1, n2⟩ := around_mark_core_before S hts d da db f t gf gt ins sl st f2 t2 mk M
+      hM hv hpv hn hsn hs hsep ha hb old hold hg
+    have := (commute_around_mark_unguarded S d da db dab dba f t gf gt ins sl st f2 t2 mk M M _ hle hs
+      (by rcases hM with rfl | rfl
+          · exact .inl ⟨rfl, hsep⟩
+          · exact .inr ⟨rfl, .inl hsep⟩) ha hb h1 h2 h3 h4).2 n1 n2
+    subst this
+    exact ⟨M, dab, h1, h2, h3, h4⟩
+  · obtain ⟨dab, dba, h1, h2, h3, h4, n1, n2⟩ := around_mark_core_after S hts d da db f t gf gt ins sl st f2 t2 mk M
+      hM hv hpv hn hsn hs hsep ha hb old hold hg
+    have : dab = dba := by
+      rcases hM with rfl | rfl
+      · exact (commute_around_mark_partial S d da db dab dba f t gf gt ins sl st f2 t2 _ _ mk _ hle hs
+          (.inr hsep) ha hb h1 h2 h3 h4 (hstable rfl hsep)).2 n1 n2
+      · exact (commute_around_mark_unguarded S d da db dab dba f t gf gt ins sl st f2 t2 mk _ _ _ hle hs
+          (.inr ⟨rfl, .inr (.inr hsep)⟩) ha hb h1 h2 h3 h4).2 n1 n2
+    subst this
+    exact ⟨_, dab, h1, h2, h3, h4⟩
+
+/-- remove-mark steps: no `ParentStable` -/
+theorem commute_succeeds_around_removeMark_partial (S : Schema) (hts : TextLoop S) (d da db : Node)
+    (f t gf gt ins : Nat) (sl : Slice) (st : Bool) (f2 t2 : Nat) (mk : Mark)
+    (hv : C01.Valid S d) (hpv : C01.PayloadValid S d (.replaceAround f t gf gt sl ins st))
+    (hn : fnorm d.kids = true) (hsn : fnorm sl.content = true)
+    (hs : AroundShape f t gf gt sl ins)
+    (ha : S.apply (.replaceAround f t gf gt sl ins st) d = .ok da)
+    (hb : S.apply (.removeMark f2 t2 mk) d = .ok db)
+    (old : Slice) (hold : d.slice f2 t2 = .ok old)
+    (hg : (t2 < f ∧ commuteGuard d.kids f2 t2 old f t sl = true) ∨
+      (t < f2 ∧ commuteGuard d.kids f t sl f2 t2 old = true)) :
+    ∃ M' dab, (Step.removeMark f2 t2 mk).map (Step.replaceAround f t gf gt sl ins st).getMap = some M' ∧
+      (Step.replaceAround f t gf gt sl ins st).map (Step.removeMark f2 t2 mk).getMap =
+        some (.replaceAround f t gf gt sl ins st) ∧
+      S.apply M' da = .ok dab ∧ S.apply (.replaceAround f t gf gt sl ins st) db = .ok dab :=
+  commute_succeeds_around_mark_partial S hts d da db f t gf gt ins sl st f2 t2 mk _ (.inr rfl) hv hpv hn hsn hs
+    ha hb old hold hg (fun h => by cases h)
+
+/-- add-mark steps: `ParentStable` when the marked range lies after the replace-around step -/
+theorem commute_succeeds_around_addMark_partial (S : Schema) (hts : TextLoop S) (d da db : Node)
+    (f t gf gt ins : Nat) (sl : Slice) (st : Bool) (f2 t2 : Nat) (mk : Mark)
+    (hv : C01.Valid S d) (hpv : C01.PayloadValid S d (.replaceAround f t gf gt sl ins st))
+    (hn : fnorm d.kids = true) (hsn : fnorm sl.content = true)
+    (hs : AroundShape f t gf gt sl ins)
+    (ha : S.apply (.replaceAround f t gf gt sl ins st) d = .ok da)
+    (hb : S.apply (.addMark f2 t2 mk) d = .ok db)
+    (old : Slice) (hold : d.slice f2 t2 = .ok old)
+    (hg : (t2 < f ∧ commuteGuard d.kids f2 t2 old f t sl = true) ∨
+      (t < f2 ∧ commuteGuard d.kids f t sl f2 t2 old = true))
+    (hstable : t < f2 → ParentStable S d da f2 t2
+      ((f2 : Int) + ((ins : Int) - ((gf : Int) - f)) + (sl.size - ins - ((t : Int) - gt))).toNat) :
+    ∃ M' dab, (Step.addMark f2 t2 mk).map (Step.replaceAround f t gf gt sl ins st).getMap = some M' ∧
+      (Step.replaceAround f t gf gt sl ins st).map (Step.addMark f2 t2 mk).getMap =
+        some (.replaceAround f t gf gt sl ins st) ∧
+      S.apply M' da = .ok dab ∧ S.apply (.replaceAround f t gf gt sl ins st) db = .ok dab :=
+  commute_succeeds_around_mark_partial S hts d da db f t gf gt ins sl st f2 t2 mk _ (.inl rfl) hv hpv hn hsn hs
+    ha hb old hold hg (fun _ h => hstable h)
 
 /-! Non-vacuity of the decidable hypotheses of `commute_succeeds_around_around`: in
     `doc(quote(p("a")), quote(p("b")))` two users re-create the two paragraphs around their content
